@@ -318,7 +318,8 @@ def run(ctx):
                 if okarm:
                     ebb, ett = en_[0]
                     ea = [show(eb.at(ebb).op(x)) for x in ett["args"]]
-                    # for_each over 0..fperiod with a closure calling get(lpf) exactly once
+                    # per-sample loop between start and end: either `(0..fperiod).for_each(closure)` or an
+                    # inline `for _ in 0..fperiod` loop; get(lpf) exactly once per iteration, unconditionally
                     fe = [(bb, t) for bb, t in vs.calls() if t["callee"]["k"] == "fndef" and cm.callee_name(t["callee"]).endswith("Iterator::for_each") and sbb in dom.get(bb, ()) and bb in dom.get(ebb, ())]
                     rngs = ""
                     gets = 0
@@ -335,18 +336,40 @@ def run(ctx):
                                 ceb = ExprBuilder(cb)
                                 ga = show(ceb.at(gc[0][0]).op(gc[0][1]["args"][1]))
                                 in_loop = any(gc[0][0] in lb for h, lb in cb.natural_loops())
-                                loops_in_closure = (ga, in_loop, not paths.guards(cb, gc[0][0], ceb))
+                                loops_in_closure = (ga.replace("^", "").replace("*", ""), in_loop, not paths.guards(cb, gc[0][0], ceb))
+                    else:
+                        gc = [(bb, t) for bb, t in cm.local_calls(vs, p, exact=EX + "get") if sbb in dom.get(bb, ()) and vs.can_reach(bb, ebb)]
+                        gets = len(gc)
+                        if gc:
+                            gbb, gt = gc[0]
+                            ga = show(eb.at(gbb).op(gt["args"][1]))
+                            encl = sorted([lb for h, lb in vs.natural_loops() if gbb in lb], key=len)
+                            inner_guards = []
+                            rng_found = ""
+                            for g in paths.guards(vs, gbb, eb):
+                                if g[0] == "some" and "Range" in show(g[1]):
+                                    for x in walk(g[1]):
+                                        if x[0] == "agg" and x[1].endswith("Range::Range") and "fperiod" in show(x):
+                                            rng_found = show(x)
+                                elif g[0] in ("true", "false") and encl and any(gbb in lb for lb in encl[:1]):
+                                    # a condition evaluated inside the sample loop
+                                    sw_in_loop = [sb for sb, tt, vv in vs.guards(gbb) if sb in encl[0]]
+                                    if sw_in_loop:
+                                        inner_guards.append(g)
+                            rngs = rng_found
+                            nested = len(encl) > 1 and any(gbb in lb and lb < encl[-1] and lb is not encl[0] for lb in encl)
+                            loops_in_closure = (ga, len(encl) != 1 and False, not [g for g in inner_guards if "is_first" not in show(g[1]) and "stage" not in show(g[1])])
                     seqs.append((tuple(a[1:]), tuple(ea[1:]), rngs, gets, loops_in_closure))
                 else:
                     seqs.append(None)
-            want = (("p", "self.fperiod"), ("p",), "std::ops::Range::Range{start: 0, end: self.fperiod}", 1, ("^lpf", False, True))
+            want = (("p", "self.fperiod"), ("p",), "std::ops::Range::Range{start: 0, end: self.fperiod}", 1, ("lpf", False, True))
             norm = []
             for s in seqs:
                 if s is None:
                     norm.append(None)
                     continue
                 a, ea, rngs, gets, lc = s
-                lc2 = (lc[0].replace("*", ""), lc[1], lc[2]) if lc else None
+                lc2 = (lc[0].replace("*", "").replace("^", ""), lc[1], lc[2]) if lc else None
                 norm.append((a, ea, rngs, gets, lc2))
             if all(n == want for n in norm):
                 ctx.ok("C07-R5", "both filter families: start(p, fperiod); (0..fperiod).for_each(get(lpf) once, unconditionally); end(p)", vs.loc())
